@@ -2,6 +2,7 @@
 usage: confirm_mutants.py [--round2] <PID> [<PID> ...]
    (reads /tmp/mut/out_<PID>/mutant{k}.diff, demo{k}.py, meta{k}.json; with --round2 (/tmp/mut2, _m3/_m4) or --round3 (/tmp/mut3, _m5/_m6))"""
 import json
+import os
 import shutil
 import subprocess
 import sys
@@ -25,7 +26,7 @@ def main():
     args = [a for a in args if a not in ("--round2", "--round3", "--round4", "--round5", "--round6")]
     for pid in args:
         base6 = max([int(d.name.split("_m")[1]) for d in Path("/verif/seeded").glob(f"{pid}_m*")] + [0])
-        out = Path(f"/tmp/mut6/out_{pid}") if round6 else Path(f"/tmp/mut5/out_{pid}" if round5 else f"/tmp/mut4/out_{pid}" if round4 else f"/tmp/mut3/out_{pid}" if round3 else (f"/tmp/mut2/out_{pid}" if round2 else f"/tmp/mut/out_{pid}"))
+        out = Path(f"{os.environ.get('MUT_ROUND_DIR', '/tmp/mut6')}/out_{pid}") if round6 else Path(f"/tmp/mut5/out_{pid}" if round5 else f"/tmp/mut4/out_{pid}" if round4 else f"/tmp/mut3/out_{pid}" if round3 else (f"/tmp/mut2/out_{pid}" if round2 else f"/tmp/mut/out_{pid}"))
         for k in (1, 2, 3):
             diff = out / f"mutant{k}.diff"
             if not diff.exists():
